@@ -1,4 +1,71 @@
-import ShmVerif.Model.QueueC
+import ShmVerif.Proof.QueueC
+/-!
+  C04 — the IO queue delivers every element exactly once, intact and in order.
+
+  `Reachable s`: `s` is the state after ANY schedule (list of single-access steps of any producer / the consumer),
+  from the initial state of ANY capacity (0 and 1 included), ANY initial cursor value (wrap-around), ANY number of
+  producers with ANY programs and ANY number of pops.
+  `enq` is the ghost list of published elements in publication order (index = cursor value), `deq` the list of
+  elements the consumer returned.
+-/
 namespace Props.C04
-theorem placeholder : True := trivial
+open QueueC
+
+def Reachable (s : State) : Prop :=
+  ∃ cap base prods pops sched, s = run (init cap base prods pops) sched
+
+theorem reachable_inv {s : State} (h : Reachable s) : Inv s := by
+  obtain ⟨cap, base, prods, pops, sched, rfl⟩ := h
+  exact run_inv _ sched (inv_init cap base prods pops)
+
+/-- Everything the consumer has returned is exactly the first `head` published elements, in publication order:
+    no loss, no duplicate, no tearing (elements compare on all three fields), no reordering. -/
+theorem c04_fifo {s : State} (hr : Reachable s) :
+    s.deq = s.enq.take s.head ∧ s.deq <+: s.enq := by
+  have h := reachable_inv hr
+  exact ⟨h.deqEq, by rw [h.deqEq]; exact List.take_prefix _ _⟩
+
+/-- The number of outstanding elements never exceeds the capacity (and cursors never cross). -/
+theorem c04_bounded {s : State} (hr : Reachable s) :
+    s.head ≤ s.tail ∧ s.tail - s.head ≤ s.cap ∧ s.enq.length = s.tail := by
+  have h := reachable_inv hr
+  exact ⟨h.hle, by have := h.bounded; omega, h.enqLen⟩
+
+/-- A slot inside the published window always holds the published element: the consumer can only ever read
+    completely written slots, and a producer never overwrites an unread one. -/
+theorem c04_window_intact {s : State} (hr : Reachable s) :
+    ∀ i, s.head ≤ i → i < s.tail → rget s.ring (i % s.cap) = s.enq.getD i default :=
+  (reachable_inv hr).window
+
+/-- What the consumer is about to return (`addHead` step) is the published element at cursor `head`. -/
+theorem c04_returns_published {s : State} (hr : Reachable s) (hpc : s.cons.pc = .addHead) :
+    s.cons.e = s.enq.getD s.head default ∧ s.head < s.tail := by
+  have h := (reachable_inv hr).cons
+  simp only [ConsInv, hpc] at h
+  exact ⟨h.2.2, h.2.1⟩
+
+/-- `put` reports "full" only when the queue really is full at the instant it loads `head`:
+    in any reachable state, the step that sends the lock holder to the full-exit sees `tail - head ≥ cap`. -/
+theorem c04_full_is_full {s : State} (hr : Reachable s) (t : Nat) (c c' : Crit) :
+    s.crit = some c → c.pc = .ldHead → (stepProd s t).1.crit = some c' → c'.pc = .unlockFull →
+    s.tail - s.head ≥ s.cap := by
+  intro hc hpc hc' hpc'
+  have hcrit := (reachable_inv hr).crit
+  simp only [CritInv, hc, hpc] at hcrit
+  unfold stepProd at hc'
+  simp only [hc, hpc] at hc'
+  by_cases htid : c.tid ≠ t
+  · rw [if_pos htid] at hc'
+    split at hc' <;> (simp only at hc'; rw [hc] at hc'; cases hc'; rw [hpc] at hpc'; cases hpc')
+  · rw [if_neg htid] at hc'
+    split at hc'
+    · rename_i hfull; rw [hcrit] at hfull; exact hfull
+    · simp only [Option.some.injEq] at hc'; rw [← hc'] at hpc'; cases hpc'
+
+-- non-vacuity: a concrete schedule with wrap-around (cap 1, cursors starting at 3) that publishes and consumes
+example :
+    let s := run (init 1 3 [[⟨7, 8, 9⟩, ⟨1, 2, 3⟩]] 2)
+      [some 0, some 0, some 0, some 0, some 0, some 0, some 0, some 0, none, none, none, none, none, none]
+    s.deq.drop 3 = [⟨7, 8, 9⟩] ∧ s.head = 4 ∧ s.tail = 4 := by decide
+
 end Props.C04
